@@ -1431,6 +1431,54 @@ func genJSON(c *Ctx) {
 			{name: d.Inputs[1], vals: []float64{math.MaxFloat64, -math.MaxFloat64, 2}}}}).bytes(), "non-finite")
 	}
 
+	// non-finite values at EVERY position pattern: EmcDwc with EMC = DWC = 1e300 turns a timestep with quickflow 1e300 / baseflow -1e300 into
+	// +Inf (quickLoad), -Inf (slowLoad) and NaN (totalLoad = Inf - Inf), and leaves the other timesteps finite. An encoder that looks
+	// at the first element, at the minimum/maximum (comparisons ignore NaN) or at the last element only shows on a series whose ONLY
+	// non-finite value is somewhere else.
+	if d := describe("EmcDwc"); d != nil && len(d.Inputs) == 2 && len(d.Parameters) == 2 {
+		nm := "EmcDwc"
+		nPat := 10
+		if c.Tier == "thorough" {
+			nPat = 60
+		}
+		for k := 0; k < nPat; k++ {
+			T := r.Range(1, 9)
+			q, b := make([]float64, T), make([]float64, T)
+			for t := range q {
+				q[t], b[t] = float64(r.Range(0, 9))*1e-300, float64(r.Range(0, 9))*1e-300
+			}
+			var bad []int
+			switch k % 5 {
+			case 0:
+				bad = []int{0}
+			case 1:
+				bad = []int{T - 1}
+			case 2:
+				bad = []int{r.Intn(T)}
+			case 3:
+				bad = []int{r.Intn(T), r.Intn(T)}
+			default:
+				for t := 1; t < T; t++ { // everything but the first
+					bad = append(bad, t)
+				}
+			}
+			for _, t := range bad {
+				switch r.Intn(4) {
+				case 0:
+					q[t], b[t] = 1e300, -1e300 // Inf, -Inf, NaN
+				case 1:
+					q[t] = 1e300 // Inf, finite, Inf
+				case 2:
+					b[t] = -1e300 // finite, -Inf, -Inf
+				default:
+					q[t], b[t] = -1e300, 1e300 // -Inf, Inf, NaN
+				}
+			}
+			both((&reqSpec{name: &nm, params: []reqParam{{d.Parameters[0].Name, 1e300}, {d.Parameters[1].Name, 1e300}},
+				inputs: []reqInput{{name: d.Inputs[0], vals: q}, {name: d.Inputs[1], vals: b}}}).bytes(), "non-finite")
+		}
+	}
+
 	// unknown / empty names
 	for _, n := range []string{"", "NoSuchModel", "gr4j", "GR4J ", "Σ", "a\"b\\c\n", strings.Repeat("x", 300), " <script>&"} {
 		nn := n
